@@ -1,6 +1,10 @@
 package p2p
 
-import "github.com/canopy-network/canopy/lib"
+import (
+	"time"
+
+	"github.com/canopy-network/canopy/lib"
+)
 
 // C18 (sequential kernel only): packetisation and reassembly in p2p/conn.go.
 // Goroutine interleavings, channel scheduling and data races are OUTSIDE this check (the engine
@@ -150,4 +154,83 @@ func ZZ_C18_S2c_dropped_message_leaves_no_residue() {
 		}
 	}
 	zzReach("S2c.done")
+}
+
+// S3: the real MultiConn.Send packet loop at the real chunk size (maxDataChunkSize, about 1 MB): for
+// message lengths around the chunk boundary - 0, 1, chunk-1, chunk, chunk+1, 2*chunk - the packets
+// handed to the stream carry the topic, concatenate to the message, and EXACTLY the last one carries
+// the end-of-message flag (a message that is an exact multiple of the chunk size too). The stream's
+// queue (channels, timers) is replaced by a recorder.
+
+//zz:stub (*github.com/canopy-network/canopy/p2p.Stream).queueSends harness zzRecordQueueSends
+
+var zzQueued []*Packet
+
+func zzRecordQueueSends(s *Stream, packets []*Packet, start time.Time, m *lib.Metrics) bool {
+	zzQueued = append(zzQueued, packets...)
+	return true
+}
+
+//zz:harness unwind=40 maxconcretealloc=2100000 maxsteps=400000000 panic=violation:S3.nopanic replay=model
+//zz:reach S3.done
+func ZZ_C18_S3_send_packet_loop_at_real_chunk_size() {
+	chunk := int(maxDataChunkSize)
+	n := []int{0, 1, chunk - 1, chunk, chunk + 1, 2 * chunk}[zzConcrete(zzInt("len"), 0, 5)]
+	msg := make([]byte, n)
+	if n > 0 {
+		msg[0], msg[n-1] = zzU8("first"), zzU8("last")
+	}
+	c := &MultiConn{streams: map[lib.Topic]*Stream{lib.Topic_TX: {topic: lib.Topic_TX}}, p2p: &P2P{}, log: zzLogP{}, Address: &lib.PeerAddress{}}
+	zzQueued = nil
+	ok := c.Send(lib.Topic_TX, msg)
+	zzAssert("S3.send-reports-success", ok)
+	want := (n + chunk - 1) / chunk
+	if n == 0 {
+		want = 1
+	}
+	zzAssert("S3.packet-count", len(zzQueued) == want)
+	total := 0
+	for i, p := range zzQueued {
+		zzAssert("S3.topic", p.StreamId == lib.Topic_TX)
+		zzAssert("S3.exactly-the-last-packet-ends-the-message", p.Eof == (i == len(zzQueued)-1))
+		total += len(p.Bytes)
+	}
+	zzAssert("S3.bytes-add-up", total == n)
+	if n > 0 && len(zzQueued) > 0 {
+		lastP := zzQueued[len(zzQueued)-1]
+		zzAssert("S3.first-and-last-byte-in-place", zzQueued[0].Bytes[0] == msg[0] && len(lastP.Bytes) > 0 && lastP.Bytes[len(lastP.Bytes)-1] == msg[n-1])
+	}
+	zzReach("S3.done")
+}
+
+// S4: streams of different topics do not share reassembly state. The streams come from the real
+// P2P.NewStreams; a two-packet message on one topic is interleaved on the wire with a complete
+// message of another topic (whole packets, the order the send service may produce): both arrive
+// unmodified.
+//
+//zz:harness unwind=60 panic=violation:S4.nopanic
+//zz:reach S4.done
+func ZZ_C18_S4_topics_do_not_share_reassembly_state() {
+	p := &P2P{log: zzLogP{}}
+	p.channels = lib.Channels{}
+	for t := lib.Topic(0); t < lib.Topic_INVALID; t++ {
+		p.channels[t] = make(chan *lib.MessageAndMetadata, 2)
+	}
+	streams := p.NewStreams()
+	a1, a2, b := zzBytes("a1", 2), zzBytes("a2", 2), zzBytes("b", 3)
+	peer := &lib.PeerInfo{}
+	sa, sb := streams[lib.Topic_TX], streams[lib.Topic_CONSENSUS]
+	zzAssert("S4.streams-exist", sa != nil && sb != nil && sa != sb)
+	if sa == nil || sb == nil {
+		return
+	}
+	_, e1 := sa.handlePacket(peer, &Packet{StreamId: lib.Topic_TX, Eof: false, Bytes: a1}, nil)
+	_, e2 := sb.handlePacket(peer, &Packet{StreamId: lib.Topic_CONSENSUS, Eof: true, Bytes: b}, nil)
+	_, e3 := sa.handlePacket(peer, &Packet{StreamId: lib.Topic_TX, Eof: true, Bytes: a2}, nil)
+	zzAssert("S4.no-errors", e1 == nil && e2 == nil && e3 == nil)
+	zzAssert("S4.one-message-per-topic", len(p.channels[lib.Topic_TX]) == 1 && len(p.channels[lib.Topic_CONSENSUS]) == 1)
+	ma, mb := <-p.channels[lib.Topic_TX], <-p.channels[lib.Topic_CONSENSUS]
+	zzAssert("S4.other-topic-message-intact", len(mb.Message) == 3 && mb.Message[0] == b[0] && mb.Message[1] == b[1] && mb.Message[2] == b[2])
+	zzAssert("S4.split-message-intact", len(ma.Message) == 4 && ma.Message[0] == a1[0] && ma.Message[1] == a1[1] && ma.Message[2] == a2[0] && ma.Message[3] == a2[1])
+	zzReach("S4.done")
 }
